@@ -6,6 +6,7 @@ import (
 	"fmt"
 	"strings"
 	"sync"
+	"sync/atomic"
 	"time"
 
 	jsonrpc "github.com/filecoin-project/go-jsonrpc"
@@ -15,19 +16,31 @@ import (
 )
 
 type WrRev struct {
-	Ping     func(ctx context.Context, x int) (int, error)
-	PingHold func(ctx context.Context, x int) (int, error)
+	Ping        func(ctx context.Context, x int) (int, error)
+	PingHold    func(ctx context.Context, x int) (int, error)
+	PingHoldBig func(ctx context.Context, x int) (string, error)
 }
 
-type WrRevHnd struct{ s *vsched.Sched }
+type WrRevHnd struct {
+	s       *vsched.Sched
+	entered *atomic.Int32
+}
 
 func (WrRevHnd) Ping(ctx context.Context, x int) (int, error) { return x + 1, nil }
 
 // PingHold answers only once the client has swapped in a new connection: its response is
 // written by a handler that started on the previous connection.
 func (h WrRevHnd) PingHold(ctx context.Context, x int) (int, error) {
-	h.s.Env("revhold-go")
+	h.entered.Add(1)
+	h.s.Env(fmt.Sprintf("revhold-go-%d", x))
 	return x + 1, nil
+}
+
+// PingHoldBig is PingHold with an answer larger than the connection's write buffer.
+func (h WrRevHnd) PingHoldBig(ctx context.Context, x int) (string, error) {
+	h.entered.Add(1)
+	h.s.Env(fmt.Sprintf("revhold-go-%d", x))
+	return strings.Repeat("w", 9000), nil
 }
 
 type WrSrv struct {
@@ -76,13 +89,23 @@ func (h *WrSrv) RevHold(ctx context.Context, x int) (int, error) {
 	return rc.PingHold(ctx, x)
 }
 
+func (h *WrSrv) RevHoldBig(ctx context.Context, x int) (int, error) {
+	rc, ok := jsonrpc.ExtractReverseClient[WrRev](ctx)
+	if !ok {
+		return -1, nil
+	}
+	v, err := rc.PingHoldBig(ctx, x)
+	return len(v), err
+}
+
 type WrCli struct {
-	RevHold func(ctx context.Context, x int) (int, error)
-	Echo    func(ctx context.Context, tok int) (int, error)
-	Hold    func(ctx context.Context, tok int) (int, error)
-	Big     func(ctx context.Context, n int) (string, error)
-	Sub     func(ctx context.Context, id int) (<-chan int, error)
-	Rev     func(ctx context.Context, x int) (int, error)
+	RevHoldBig func(ctx context.Context, x int) (int, error)
+	RevHold    func(ctx context.Context, x int) (int, error)
+	Echo       func(ctx context.Context, tok int) (int, error)
+	Hold       func(ctx context.Context, tok int) (int, error)
+	Big        func(ctx context.Context, n int) (string, error)
+	Sub        func(ctx context.Context, id int) (<-chan int, error)
+	Rev        func(ctx context.Context, x int) (int, error)
 }
 
 // S-WRITERS (DESIGN §3 C14): every vnet write is a schedule point, so a writer can be
@@ -109,6 +132,10 @@ func init() {
 				// a reverse handler that is still running when the connection is replaced, and a
 				// reverse call on the new connection
 				add("s16-reconnect-revhold", 1, map[string]int{"size": 16, "reconnect": 1, "revhold": 1})
+				// a writer stuck in a write on the old connection (the peer stopped reading) while
+				// holding the write lock, a second writer queued behind it, the read side ends, the
+				// client redials; then the old socket is reset and both writers come back to life
+				add("s16-stuckwriter", 1, map[string]int{"size": 16, "reconnect": 1, "stuck": 1})
 				return ps
 			}
 			add("s16", 2, map[string]int{"size": 16})
@@ -122,6 +149,7 @@ func init() {
 			add("s70000-garbage", 1, map[string]int{"size": 70000, "garbage": 1})
 			add("s16-reconnect-revhold", 2, map[string]int{"size": 16, "reconnect": 1, "revhold": 1})
 			add("s5000-reconnect-revhold-pings", 1, map[string]int{"size": 5000, "reconnect": 1, "revhold": 1, "pings": 1})
+			add("s16-stuckwriter", 2, map[string]int{"size": 16, "reconnect": 1, "stuck": 1})
 			return ps
 		},
 		Body: writersBody,
@@ -130,7 +158,8 @@ func init() {
 
 func writersBody(s *vsched.Sched, p Param) {
 	sopts := []jsonrpc.ServerOption{jsonrpc.WithReverseClient[WrRev]("R")}
-	copts := []jsonrpc.Option{jsonrpc.WithClientHandler("R", WrRevHnd{s: s})}
+	var holdEntered atomic.Int32
+	copts := []jsonrpc.Option{jsonrpc.WithClientHandler("R", WrRevHnd{s: s, entered: &holdEntered})}
 	if p.I("pings") == 1 {
 		sopts = append(sopts, jsonrpc.WithServerPingInterval(time.Second))
 		copts = append(copts, jsonrpc.WithPingInterval(time.Second), jsonrpc.WithTimeout(3*time.Second))
@@ -159,6 +188,8 @@ func writersBody(s *vsched.Sched, p Param) {
 	subCtx, subCancel := context.WithCancel(context.Background())
 	s.Teardown = func() { holdCancel(); subCancel(); w.Teardown() }
 	size := p.I("size")
+	stuck := p.I("stuck") == 1
+	stage := 0 // stuck-writer variant: 1 stalled, 2 read side ended, 3 redialled, 4 old socket reset
 	okDials := func() int {
 		n := 0
 		for _, d := range w.Net.Dials() {
@@ -172,7 +203,17 @@ func writersBody(s *vsched.Sched, p Param) {
 		switch name {
 		case "close-go":
 			return s.Now() >= 2500*time.Millisecond
-		case "revhold-go", "rev2-go":
+		case "revhold-go-20":
+			if stuck {
+				return stage >= 1 // after the client->server direction has stalled
+			}
+			return okDials() >= 2
+		case "revhold-go-30":
+			return stage >= 1
+		case "rev2-go":
+			if stuck {
+				return stage >= 4
+			}
 			return okDials() >= 2
 		case "closerev-go":
 			_, a := obs.Get("rev2")
@@ -180,8 +221,35 @@ func writersBody(s *vsched.Sched, p Param) {
 		}
 		return true
 	}
+	if stuck {
+		s.OnQuiesce = func() bool {
+			_, a := obs.Get("e1")
+			_, b := obs.Get("e2")
+			_, c := obs.Get("big")
+			_, d := obs.Get("rev")
+			switch {
+			case stage == 0 && a && b && c && d && holdEntered.Load() >= 2:
+				w.Net.Link(0).Stall(vnet.C2S) // the peer stops reading; the two held handlers are released
+				stage = 1
+			case stage == 1:
+				w.Net.Link(0).HalfClose(vnet.S2C) // the client's reader sees end-of-file
+				stage = 2
+			case stage == 2 && okDials() >= 2:
+				stage = 3
+			case stage == 3:
+				w.Net.Link(0).Sever(vnet.RST) // the stuck write fails at last
+				stage = 4
+			default:
+				return false
+			}
+			return true
+		}
+	}
 	s.Finish = func() {
 		checkWireIntegrity(s, w)
+		if stuck && stage < 4 {
+			s.Violate("HARNESS: the stuck-writer sequence stopped at stage %d; alive: %s", stage, strings.Join(s.Alive(), " "))
+		}
 		for _, k := range []string{"e1", "e2", "big", "rev"} {
 			if _, ok := obs.Get(k); !ok {
 				s.Violate("C14: call %s never returned; alive: %s", k, strings.Join(s.Alive(), " "))
@@ -195,7 +263,7 @@ func writersBody(s *vsched.Sched, p Param) {
 		if v, _ := obs.Get("rev"); strings.HasSuffix(v, "/<nil>") && v != "8/<nil>" {
 			s.Violate("C14: reverse call result damaged: %s", v)
 		}
-		if p.I("revhold") == 1 {
+		if p.I("revhold") == 1 || stuck {
 			if v, ok := obs.Get("rev2"); !ok {
 				s.Violate("C14: the call made after the reconnect never returned; alive: %s", strings.Join(s.Alive(), " "))
 			} else if strings.HasSuffix(v, "/<nil>") && v != "10/<nil>" {
@@ -243,8 +311,23 @@ func writersBody(s *vsched.Sched, p Param) {
 	})
 	s.Go("zcancel-hold", func() { holdCancel() }) // cancel path 1: while the caller waits
 	s.Go("zcancel-sub", func() { subCancel() })   // cancel path 2: after the subscribing call returned
-	if p.I("reconnect") == 1 {
+	if p.I("reconnect") == 1 && !stuck {
 		s.Go("zcut", func() { w.Net.Link(0).Sever(vnet.FIN) })
+	}
+	if stuck {
+		s.Go("c-revholdbig", func() {
+			v, err := cli.RevHoldBig(context.Background(), 20)
+			obs.Set("revholdbig", "%d/%s", v, errClass(err))
+		})
+		s.Go("c-revhold2", func() {
+			v, err := cli.RevHold(context.Background(), 30)
+			obs.Set("revhold2", "%d/%s", v, errClass(err))
+		})
+		s.Go("zrev2", func() {
+			s.Env("rev2-go")
+			v, err := cli.Rev(context.Background(), 9)
+			obs.Set("rev2", "%d/%s", v, errClass(err))
+		})
 	}
 	if p.I("revhold") == 1 {
 		s.Go("c-revhold", func() { v, err := cli.RevHold(context.Background(), 20); obs.Set("revhold", "%d/%s", v, errClass(err)) })
@@ -268,7 +351,7 @@ func writersBody(s *vsched.Sched, p Param) {
 		if p.I("pings") == 1 {
 			s.Env("close-go") // let a few ping rounds happen first
 		}
-		if p.I("revhold") == 1 {
+		if p.I("revhold") == 1 || stuck {
 			s.Env("closerev-go") // after the call on the new connection
 		}
 		closer()
